@@ -112,7 +112,14 @@ fn plan10(seed: u64, run: u64, tier: Tier) -> Plan10 {
     o.unicode = rng.chance(1, 3);
     let (mut program, _) = jsgen::gen_program(&mut rng, o);
     // make sure something is instrumented
-    program.push_str("function always(a, b) { return a + b; }\n");
+    // the last statement, sometimes with comments after it (they share the trailing-comment entry
+    // the reference comment will land in)
+    match rng.below(4) {
+        0 => program.push_str("function always(a, b) { return a + b; } /* public api */\n"),
+        1 => program.push_str("function always(a, b) { return a + b; }\n// end of bundle\n"),
+        2 => program.push_str("function always(a, b) { return a + b; } // trailing note\n/* footer */\n"),
+        _ => program.push_str("function always(a, b) { return a + b; }\n"),
+    }
     let mut tags = Vec::new();
     let mut fs = FsSpec::default();
     let shape = mapgen::gen_shape(&mut rng);
@@ -203,6 +210,13 @@ fn plan10(seed: u64, run: u64, tier: Tier) -> Plan10 {
             ref_kind = "none";
             ref_text = String::new();
         }
+    }
+    // an unreferenced sibling `<file>.map` (a stale build artefact) lies around in some runs
+    let sibling = format!("{}.map", file);
+    if rng.chance(1, 3) && expected_open.as_deref() != Some(sibling.as_str()) && !fs.nodes.contains_key(&sibling) {
+        let decoy = mapgen::gen_orig_map(&mut rng, &program, &shape);
+        fs.nodes.insert(sibling, FsNode::Text(decoy.to_json()));
+        tags.push("sibling-map-decoy".into());
     }
     if lookalike && !ref_text.is_empty() {
         // literals containing exactly the text of the reference comment
@@ -352,8 +366,19 @@ fn check_composition(r: &Map, o: &Map, t: &Map) -> Result<(usize, usize, usize),
         };
         let ot = match Map::glb(&osorted, rt.sl, rt.sc) {
             Some(ot) if ot.src.is_some() => ot,
-            _ => {
+            other => {
                 without_o += 1;
+                // the composition yields nothing here: the chained map may not have a sourced token of
+                // its own at this very position (what a *lookup* falls back to is not constrained)
+                if other.is_none() {
+                    if let Some(tt) = tsorted.iter().find(|t| t.gl == l && t.gc == c && t.src.is_some()) {
+                        let asrc = tt.src.and_then(|x| t.source_name(x)).unwrap_or_default();
+                        return Err(format!(
+                            "the chained map has a token at generated {l}:{c} -> {asrc}:{}:{} although the original map has no mapping at or before the rewrite map's source position {}:{}",
+                            tt.sl, tt.sc, rt.sl, rt.sc
+                        ));
+                    }
+                }
                 continue;
             }
         };
